@@ -1,4 +1,5 @@
 (* C14 — upload slots are bounded and follow the choking policy. *)
+From Coq Require Import Permutation.
 From Rdest Require Import Base Consts Wire Manager MgrProofs.
 Open Scope N_scope.
 
@@ -8,9 +9,16 @@ Theorem C14_bitfield_bound : forall m a bits pick m' r bc sp,
   regular_unchoked (m_peers m) <= 10 -> regular_unchoked (m_peers m') <= 10.
 Proof. intros. eapply bitfield_keeps_bound; eauto. Qed.
 
-(* the rotation's bound and policy (each regular slot interested, no better-rated interested peer left choked,
-   lost interest => choked, broadcast map = exactly the changes) are decided on the real Session by the
-   correspondence oracle policy14 / bound14 for every rate order with ties; no Coq proof over rotate_go yet *)
+(* after every choke rotation carried out over all connected peers (every rate order, ties included, any optimistic
+   pick): at most ten peers are unchoked, plus the new optimistic ones (at most one: new_optimistic_peers picks one) *)
+Theorem C14_rotation_bound : forall m rates new_opt m' fl,
+  NoDup (map fst (m_peers m)) -> Permutation (map fst rates) (map fst (m_peers m)) ->
+  change_conn_state m rates new_opt = Ok (m', fl) -> U (m_peers m') <= 10 + len new_opt.
+Proof. exact rotation_bound. Qed.
+
+(* the rotation's policy (each regular slot interested, no better-rated interested peer left choked, lost interest =>
+   choked, broadcast map = exactly the changes) is decided on the real Session by the correspondence oracle policy14
+   for every rate order with ties; no Coq proof yet *)
 Example C14_nonvacuous :
   let p c i := mkpeer None [] None false c i true false None None in
   match change_conn_state (mkmgr [] [(1, p true true); (2, p false false); (3, p true true)] [] 0 false []) [(1, 5); (2, 9); (3, 5)] [] with
@@ -20,3 +28,4 @@ Example C14_nonvacuous :
 Proof. vm_compute. split; reflexivity. Qed.
 
 Print Assumptions C14_bitfield_bound.
+Print Assumptions C14_rotation_bound.
